@@ -301,9 +301,33 @@ fn fill_items(bytes: usize, salt: u64) -> Vec<Item> {
     items
 }
 
+/// The "every count" spaces: where the format's own limit on a count or size is far away (items in a chunk, NACK
+/// words, FIR / SLI entries, RPSI and payload bytes, packets in a datagram, members of a compound), every value from 0
+/// up to this bound is explored, not only small ones and the values next to powers of two: an implementation is free
+/// to pick any number in between for an inline buffer, a batch, a "reasonable maximum" or an MTU-derived cap (48, 100,
+/// 200, 297 = (1200-12)/4, 300, 375 = 1500/4, 1472, 1500, 2048, 9000/4 ...), and a fault at exactly that number or
+/// its multiples is otherwise invisible.
+pub fn dense_bound(tier: Tier) -> usize {
+    tier.pick(2304, 8192)
+}
+
 pub fn sdes_spaces(tier: Tier, seed: u64) -> Vec<CfgSpace> {
     let mut v = vec![wide_count_space(3)];
     let s = seed;
+
+    // one chunk with every number of items 0..=dense_bound (item types cycling through CNAME..PRIV, value lengths
+    // cycling through the residues), alone / followed by a small second chunk and padded
+    let nd = dense_bound(tier) as u64 + 1;
+    v.push(CfgSpace::new("sdes-every-item-count", nd * 2, move |idx| {
+        let n = (idx / 2) as usize;
+        let second = idx % 2 == 1;
+        let items: Vec<Item> = (0..n).map(|i| sdes_item_kind((i % 8) as u64, (i * 5 + n) % 4, i as u64 ^ idx).unwrap()).collect();
+        let mut chunks = vec![Chunk { ssrc: 0x0000_0001 + (n as u32) * 0x0101, items }];
+        if second {
+            chunks.push(Chunk { ssrc: 0x0000_0100, items: vec![Item::new(1, b"ab")] });
+        }
+        Pkt::Sdes { chunks, pad: if second { 4 } else { 0 } }
+    }));
 
     // total sizes around the carries of the 16-bit length field (in words: 0x00FF -> 0x0100 at 1024 bytes, then
     // 2048, 4096): one chunk whose items fill the packet to exactly T - 4, T, T + 4 bytes, with one or several fill
@@ -636,6 +660,12 @@ pub fn app_spaces(tier: Tier, _seed: u64) -> Vec<CfgSpace> {
             }
             let data: Vec<u8> = (0..n).map(|i| (i as u64 * 13 + idx) as u8).collect();
             Pkt::App { ssrc: 0x0A0B_0C0D, subtype: 31, name: "big".to_string(), data, pad }
+        }),
+        // every payload size 0, 4, 8 ... 4 * dense_bound bytes (see `dense_bound`), padded on every third
+        CfgSpace::new("app-every-payload-size", dense_bound(tier) as u64 + 1, move |idx| {
+            let n = idx as usize * 4;
+            let data: Vec<u8> = (0..n).map(|i| (i as u64 * 13 + idx) as u8).collect();
+            Pkt::App { ssrc: 0x0A0B_0C0D, subtype: (idx % 32) as u8, name: "dns".to_string(), data, pad: [0u8, 0, 12][(idx % 3) as usize] }
         }),
     ]
 }
@@ -972,6 +1002,45 @@ pub fn fb_large_spaces() -> Vec<CfgSpace> {
     v
 }
 
+/// every entry / word / byte count 0..=dense_bound for the four list-like FCI types (see `dense_bound`)
+pub fn fb_dense_spaces(tier: Tier) -> Vec<CfgSpace> {
+    let nd = dense_bound(tier) as u64 + 1;
+    let mut v = Vec::new();
+    // NACK of exactly k words: k numbers 17 (even k) or 19 (odd k) apart, every third with its successor as well
+    // (one mask bit), added in descending order
+    v.push(CfgSpace::new("nack-every-word-count", nd - 1, move |idx| {
+        let k = idx as u32 + 1;
+        let step = if k % 2 == 0 { 17u32 } else { 19 };
+        let base = [0u32, 0x1234, 0xFF00, 0x7FF0][(k % 4) as usize];
+        let mut seqs: Vec<u16> = Vec::with_capacity(k as usize * 2);
+        for i in (0..k).rev() {
+            seqs.push((base + i * step) as u16);
+            if i % 3 == 0 {
+                seqs.push((base + i * step + 1) as u16);
+            }
+        }
+        // beyond 65536 / step numbers the run wraps onto itself; the set semantics stays well defined
+        Pkt::Fb { kind: Kind::Transport, sender: 0x5E4D_3C2B, media: 0x1A2B_3C4D, fci: Fci::Nack(seqs), pad: if k % 5 == 0 { 4 } else { 0 } }
+    }));
+    v.push(CfgSpace::new("sli-every-entry-count", nd, move |idx| {
+        let k = idx as usize;
+        let e = (0..k).map(|i| ((i * 37 + k) as u16 & 0x1FFF, (i * 11 + 1) as u16 & 0x1FFF, ((i + k) % 64) as u8)).collect();
+        Pkt::Fb { kind: Kind::Payload, sender: 0x5E4D_3C2B, media: 0x1A2B_3C4D, fci: Fci::Sli(e), pad: if k % 5 == 0 { 8 } else { 0 } }
+    }));
+    v.push(CfgSpace::new("fir-every-entry-count", nd, move |idx| {
+        let k = idx as usize;
+        let e = (0..k).map(|i| (((i as u32) << 24) ^ (i as u32).wrapping_mul(0x0001_0003), ((i + k) % 251) as u8)).collect();
+        Pkt::Fb { kind: Kind::Payload, sender: 0x5E4D_3C2B, media: 0x1A2B_3C4D, fci: Fci::Fir(e), pad: if k % 5 == 0 { 4 } else { 0 } }
+    }));
+    v.push(CfgSpace::new("rpsi-every-length", nd * 2, move |idx| {
+        let k = (idx / 2) as usize;
+        let overrun = if k == 0 { 0 } else { [0u8, 3][(idx % 2) as usize] };
+        let data: Vec<u8> = (0..k).map(|i| (i as u8).wrapping_mul(5).wrapping_add(k as u8) | 1).collect();
+        Pkt::Fb { kind: Kind::Payload, sender: 0x5E4D_3C2B, media: 0x1A2B_3C4D, fci: Fci::Rpsi { pt: 96, data, overrun }, pad: 0 }
+    }));
+    v
+}
+
 pub fn fb_spaces(tier: Tier, seed: u64) -> Vec<CfgSpace> {
     let mut v = nack_spaces(tier, seed);
     v.extend(fir_spaces(tier, seed));
@@ -979,6 +1048,7 @@ pub fn fb_spaces(tier: Tier, seed: u64) -> Vec<CfgSpace> {
     v.extend(rpsi_spaces(tier, seed));
     v.extend(pli_spaces(tier, seed));
     v.extend(fb_large_spaces());
+    v.extend(fb_dense_spaces(tier));
     v.extend(fb_pattern_spaces());
     v.push(fir_many_then_readd_space());
     v.push(nack_dense_run_space());
@@ -1040,6 +1110,11 @@ pub fn unknown_spaces(tier: Tier, _seed: u64) -> Vec<CfgSpace> {
                 pad = (262_144 - 4 - n).min(252) as u8 & !3;
             }
             Pkt::Unknown { pt: [207u8, 0, 255][(idx % 3) as usize], count: (idx % 32) as u8, data: (0..n).map(|i| (i as u64 * 17 + idx) as u8).collect(), pad }
+        }),
+        // every payload size 0, 4, 8 ... 4 * dense_bound bytes (see `dense_bound`)
+        CfgSpace::new("unknown-every-payload-size", dense_bound(tier) as u64 + 1, move |idx| {
+            let n = idx as usize * 4;
+            Pkt::Unknown { pt: [207u8, 192, 255, 0][(idx % 4) as usize], count: (idx % 32) as u8, data: (0..n).map(|i| (i as u64 * 17 + idx) as u8).collect(), pad: [0u8, 8, 0][(idx % 3) as usize] }
         }),
     ]
 }
